@@ -316,9 +316,14 @@ def register(an):
         self_ty = ga[0] if ga else ''
         idx_ty = ga[1] if len(ga) > 1 else ''
         sr = as_sref(an, args[0], frame, st)
+        if sr is None and self_ty.replace(' ', '').startswith('hybrid_array::Array<u8,'):
+            # fixed-size byte array of the RustCrypto crates: length from its typenum parameter
+            n_ = typenum_value(self_ty)
+            if n_ is not None:
+                sr = ('sref', ('O', 'hyb#%s' % an.nid()), Lin.const(0), Lin.const(n_))
         if 'heapless' in self_ty and sr is None:
             return NotImplemented
-        if sr is None and not (self_ty.startswith('[') or 'heapless' in self_ty):
+        if sr is None and not (self_ty.startswith('[') or 'heapless' in self_ty or 'hybrid_array' in self_ty):
             return NotImplemented
         if 'Range' in idx_ty:
             if sr is None:
